@@ -281,6 +281,13 @@ def segment_machine(prog: Program) -> RuleResult:
                 res.fail(f"{SUBSEQ}:subseq_segment_dist/masks-as-given", f"`{short(n, 70)}` changes the mask `{tgt.id}` before the scan: the loop length, the -1 verdict (a child element missing from the parent) and the trailing run are all read from the masks as given", mod, n)
                 return res
     res.ok(f"{SUBSEQ}:subseq_segment_dist/masks-as-given", "no statement before the loop changes a mask")
+    # ... and no answer is given before the scan except the -1 verdict: a closed formula for 'easy' masks (a complete
+    # parent, equal masks) is a second implementation of the count that the transducer below never sees
+    early = [r for st in pre for r in ast.walk(st) if isinstance(r, ast.Return) and not (isinstance(r.value, ast.UnaryOp) and isinstance(r.value.op, ast.USub) and isinstance(r.value.operand, ast.Constant) and r.value.operand.value == 1) and not (isinstance(r.value, ast.Constant) and r.value.value == -1)]
+    if early:
+        res.fail(f"{SUBSEQ}:subseq_segment_dist/answer-from-the-scan", f"`{short(early[0], 70)}` answers before the scan: the number of lost runs of every (child, parent) pair is what the bit-by-bit scan counts", mod, early[0])
+        return res
+    res.ok(f"{SUBSEQ}:subseq_segment_dist/answer-from-the-scan", "only the -1 verdict is returned before the scan")
     bits = []
     for st in loop.body:
         if isinstance(st, ast.Assign) and isinstance(st.value, ast.BinOp) and isinstance(st.value.op, ast.BitAnd):
